@@ -473,6 +473,88 @@ func c16Cancel(c *vlib.Ctx) {
 		c.NonTrivial(vlib.Mix(uint64(i), uint64(c.Batch), 163))
 		c.End()
 	}
+	// consumer stopped: the source delivers more packets than the channel buffers, nobody receives, the background reader
+	// ends up blocked handing over a packet; cancelling must still stop it (and close the channel) although no one ever
+	// receives again
+	for i := 0; i < c.Pick(3, 30); i++ {
+		if !c.Begin(100000 + i) {
+			continue
+		}
+		r := c.Rand(uint64(i), 4242)
+		o := c16AllOpts(r)
+		o.do.NoCopy = false
+		var items []c16Item
+		total := 1001 + r.Range(1, 40)
+		for id := 0; id < total; id++ {
+			items = append(items, c16Packet(r, id))
+		}
+		base := c16Goroutines("packetsToChannel")
+		src, ps := c16MkSource(items, o)
+		src.after = timeoutErr{}
+		ctx, cancel := context.WithCancel(context.Background())
+		ch := ps.PacketsCtx(ctx)
+		taken := r.Intn(3) // a few packets are received first, then the consumer stops for good
+		for k := 0; k < taken; k++ {
+			<-ch
+		}
+		// wait until the reader cannot make progress: 1000 packets buffered and one more read
+		blocked := false
+		for w := 0; w < 3000 && !blocked; w++ {
+			if len(ch) == cap(ch) && int(atomic.LoadInt32(&src.pos)) >= cap(ch)+taken+1 {
+				blocked = true
+				break
+			}
+			time.Sleep(2 * time.Millisecond)
+		}
+		if !blocked {
+			cancel()
+			c.Inconclusive("the channel never filled up")
+			c.End()
+			continue
+		}
+		time.Sleep(5 * time.Millisecond) // let the goroutine reach the hand-over of packet #1001
+		cancel()
+		readsAtCancel := atomic.LoadInt32(&src.reads)
+		gone := false
+		wait := 20 * time.Millisecond
+		snap := ""
+		for !gone {
+			time.Sleep(wait)
+			buf := make([]byte, 1<<20)
+			snap = string(buf[:runtime.Stack(buf, true)])
+			if strings.Count(snap, "packetsToChannel") <= base {
+				gone = true
+				break
+			}
+			wait *= 2
+			if wait > 10*time.Second {
+				break
+			}
+		}
+		if !gone {
+			c.Violation("cancel-does-not-stop-reader:consumer-stopped", "the consumer stopped receiving with the channel full; 10 s after the context was cancelled the background goroutine is still blocked and the channel is not closed", map[string]any{"options": o.String(), "packets": total, "received_before_stopping": taken, "goroutines": snap[:min(len(snap), 6000)]})
+			for range ch { // release it so that later cases start clean
+			}
+		} else {
+			// the buffered packets are still there, in order, then the channel is closed
+			n, okOrder := 0, true
+			for p := range ch {
+				if c16ID(p) != taken+n {
+					okOrder = false
+				}
+				n++
+			}
+			if !okOrder || n > cap(ch)+1 {
+				c.Violation("cancel-with-full-channel-order", fmt.Sprintf("after cancellation with a full channel the %d buffered packets are not the next ones in order", n), map[string]any{"options": o.String()})
+			}
+			if extra := atomic.LoadInt32(&src.reads) - readsAtCancel; extra > 1 {
+				c.Violation("reads-after-cancel", fmt.Sprintf("%d source reads were started after cancel() returned", extra), map[string]any{"options": o.String(), "consumer": "stopped"})
+			}
+		}
+		c.Count("cancellations_with_stopped_consumer", 1)
+		c.NonTrivial(vlib.Mix(uint64(i), uint64(c.Batch), 4242))
+		c.End()
+	}
 	// every background goroutine must be gone by now
 	time.Sleep(50 * time.Millisecond)
 	if k := c16Goroutines("packetsToChannel"); k > 0 {
